@@ -25,6 +25,7 @@ type Step struct {
 	// h2await: wait until this many frames of any kind have been received in total
 	Note      string
 	WhenQuiet bool // the step is offered to the controller only while nothing is in flight on this connection
+	DelayMS   int  // sleep: simulated milliseconds
 }
 
 type ClientPlan struct {
@@ -386,6 +387,11 @@ func (c *Client) exec(s *Step) error {
 				return fmt.Errorf("aborted")
 			}
 		}
+	case "sleep":
+		// the client does nothing for DelayMS of simulated time (the controller advances the
+		// clock when nothing else is enabled)
+		time.Sleep(time.Duration(s.DelayMS) * time.Millisecond)
+		return nil
 	case "close":
 		if c.tls != nil {
 			return c.tls.Close()
